@@ -1747,6 +1747,11 @@ def remove_redundant_transpose_pairs_ir(graph: ir.Graph) -> None:
                     old_out, new_src, replace_graph_outputs=True
                 )
                 graph.remove([T1, T2])
+                # The chain now works on the un-transposed layout: refresh its
+                # recorded shapes in dataflow order (the later propagation
+                # passes visit binary ops before unary ones).
+                for chain_member in allowed_nodes:
+                    _refresh_elementwise_output_shape(chain_member)
                 changed = True
                 break
 
@@ -2277,7 +2282,10 @@ def _elementwise_side_operands_are_scalar(
     """Layout-invariant only if every operand except the data path is a scalar."""
     if node.op_type == "CastLike":
         # The second input only supplies the target dtype; it never broadcasts.
-        return True
+        # The data path has to be the first input, though: a value that merely
+        # lends its dtype does not flow through the node.
+        cast_inputs = _node_inputs(node)
+        return bool(cast_inputs) and cast_inputs[0] is data_value
     for iv in _node_inputs(node):
         if iv is None or iv is data_value:
             continue
@@ -2330,9 +2338,9 @@ def rewrite_mul_sigmoid_as_swish_ir(graph: ir.Graph) -> None:
             )
             graph.remove(node)
             remaining_nodes = list(graph)
-            if not _value_is_graph_output(graph, sigmoid_out) and not _consumer_nodes(
-                remaining_nodes, sigmoid_out
-            ):
+            if not _value_is_observed_externally(
+                graph, remaining_nodes, sigmoid_out
+            ) and not _consumer_nodes(remaining_nodes, sigmoid_out):
                 graph.remove(sigmoid_node)
             changed = True
             break
